@@ -131,7 +131,7 @@ func runRedialOnce(c RCase) (fail *ev.Failure, timing bool) {
 		select {
 		case <-p1.unans:
 		case <-time.After(time.Duration(c.FirstAnswered+1)*(w+r) + 3*time.Second):
-			return ev.Failf("harness-observation", "the first connection never saw watchdog request %d", c.FirstAnswered+1), true
+			return ev.Failf("watchdog-request-missing", "the first connection (its peer answered every watchdog request so far) never saw watchdog request %d and was not closed either", c.FirstAnswered+1), true
 		}
 		time.Sleep(time.Duration(c.EndAfterMs) * time.Millisecond)
 	}
